@@ -121,6 +121,7 @@ class Sched(object):
         self._by_ident = {}
         self.log = []  # (worker name, where) per step, for counterexample rendering
         self.on_step = None  # optional callback(sched) run on the scheduler thread after every step
+        self.timeouts_expire = False  # True: join(timeout=...) on an unfinished thread times out
 
     # -- API for harness code running inside workers ---------------------------
     def me(self):
@@ -309,6 +310,12 @@ class SchedThread(object):
 
     def join(self, timeout=None):
         w = self.sched.me()
+        if timeout is not None and getattr(self.sched, "timeouts_expire", False) and (self.worker is None or not self.worker.finished):
+            # a bounded wait in an environment where the awaited thread can be arbitrarily slow:
+            # the timeout elapses (threading.Thread.join then returns None, silently)
+            if w is not None:
+                w.pause("join timed out")
+            return
         while self.worker is None or not self.worker.finished:
             if w is None:
                 raise Deadlock("scheduler thread would block in join")
